@@ -183,6 +183,45 @@ def gen_crash_burst(rng):
     return lines
 
 
+def gen_skew_recover(rng):
+    """C06: nodes with clock skews whose processes report `ctx.time()` from every kind of handler, before a crash and after
+    recovery + re-adding the process"""
+    nn = rng.choice([1, 2, 3])
+    nodes = [f"n{i}" for i in range(nn)]
+    procs = [f"p{i}" for i in range(nn + rng.choice([0, 1]))]
+    loc = {p: nodes[i % nn] for i, p in enumerate(procs)}
+    seed = rng.randrange(DEFAULT["seeds"])
+    lines = [f"seed {seed}", f"draws {draws_for(seed)}"] + [f"node {n}" for n in nodes] + [f"proc {p} {loc[p]}" for p in procs]
+    for p in procs:
+        q = rng.choice(procs)
+        lines.append(f"rule {p} 0 L:m0 0 K:m1 T:t0:{rng.randint(1, 4)} S:m2:=a:{q}")
+        lines.append(f"rule {p} 0 T:t0 0 K:m3")
+        lines.append(f"rule {p} 0 M:m2 0 K:m4")
+    for n in nodes:
+        if rng.random() < 0.8:
+            lines.append(f"skew {n} {rng.choice([1, 3, fbits(0.125), 10])}")
+    lines.append(f"net delay {rng.choice([1, 2])}")
+    for _ in range(rng.randint(1, 2)):
+        for p in rng.sample(procs, rng.randint(1, len(procs))):
+            lines.append(f"local {p} m0 =go")
+        lines.append(f"steps {rng.randint(1, 6)}")
+        n = rng.choice(nodes)
+        if nn > 1 or rng.random() < 0.5:
+            lines += [f"crash {n}", rng.choice(["step", "steps 2", "for 1"]), f"recover {n}"]
+            for p in procs:
+                if loc[p] == n:
+                    lines.append(f"proc {p} {n}")
+            if rng.random() < 0.3:
+                lines.append(f"skew {n} {rng.choice([1, 5])}")
+        for p in procs:
+            lines.append(f"local {p} m0 =go")
+        lines.append("steps 8")
+        for p in procs:
+            lines.append(f"read {p}")
+    lines.append("obs")
+    return lines
+
+
 def block(name, lines):
     return f"begin {name}\n" + "".join(l + "\n" for l in lines) + "end\n"
 
